@@ -131,7 +131,8 @@ CHECKS = {
               "several dtypes, lazy/eager, directory/zip, written with to_zarr and read back with from_zarr; StoreTrace.tla decides "
               "equality of type, dtype, shape/array, per-axis field trees and the metadata tree by value."
               " Round 3: lists of 2-3 measurements saved together (ComputableList.to_zarr)."
-              " Batch 7: every fourth round trip continues the store's history - what was loaded lazily is written over its own store with overwrite=True and loaded again - and every third metadata tree is of depth 2 (composed from TLC's depth-1 trees; the codec model is checked to depth 2)."),
+              " Batch 7: every fourth round trip continues the store's history - what was loaded lazily is written over its own store with overwrite=True and loaded again - and every third metadata tree is of depth 2 (composed from TLC's depth-1 trees; the codec model is checked to depth 2)."
+              " Batch 9: a list of twelve objects in one store; a list saved with the default flags over a longer one."),
         technique="TLA+ codec model (TLC) + spec-generated metadata trees round-tripped through the real zarr IO + TLC trace validation",
         design_ref="DESIGN.md 5 C30",
         note=NOTE_COMMON + " Equality is by value (NumPy scalar == equal Python scalar, ndarray == equal list, tuple != list); dict keys named '_type' are outside the grammar.",
@@ -145,7 +146,8 @@ CHECKS = {
               "and ArrayOpsTrace.tla decides after every call: values equal NumPy's on the bare array (comparison bit from the "
               "harness), one axis entry per dimension, ordinal values / linear offset+sampling of the selected items, item "
               "metadata moved into metadata, base axes refused."
-              " Batch 7: after every operation the operand is compared with its snapshot (axes, every axis field, metadata, values; clause operation_changed_its_operand) and axes that continue an operand axis must carry its other fields (half of the histories run on axes with non-default units, tex labels, ensemble_mean flag, endpoint)."),
+              " Batch 7: after every operation the operand is compared with its snapshot (axes, every axis field, metadata, values; clause operation_changed_its_operand) and axes that continue an operand axis must carry its other fields (half of the histories run on axes with non-default units, tex labels, ensemble_mean flag, endpoint)."
+              " Batch 9: std and min among the reductions."),
         technique="TLA+ history machine over axis metadata (TLC) + spec-generated operation histories replayed on real array objects + TLC trace validation",
         design_ref="DESIGN.md 5 C29",
         note=NOTE_COMMON + " Operations that NumPy/dask refuse on the bare array are not compared; an empty linear axis has no coordinates to compare.",
@@ -231,7 +233,8 @@ CHECKS = {
               "independent run through the potential built from displaced configuration k, mean member = mean of members, and "
               "that displaced positions are identical across chunkings, modes and iteration orders."
               " Round 3: the PRISM route (the S-matrix of every configuration reduced at the scan positions) next to PlaneWave and Probe."
-              " Batch 7: two ensembles that differ only in their seeds computed in one dask graph keep their own configurations; snapshots labelled by a user axis and frozen phonons built into a potential array first; lazy = eager is a clause of its own."),
+              " Batch 7: two ensembles that differ only in their seeds computed in one dask graph keep their own configurations; snapshots labelled by a user axis and frozen phonons built into a potential array first; lazy = eager is a clause of its own."
+              " Batch 9: builder prism_built - interpolation 2 and the S-matrix of all configurations built eagerly as one array object before it is reduced."),
         technique="TLA+ loop model with symbolic wave terms (TLC) + hook-event trace validation (TLC) + numeric comparison with independent per-configuration runs",
         design_ref="DESIGN.md 5 C02",
         note=NOTE_COMMON + " The MsConfig fingerprints are diagnostic only; the verdict is the numeric member comparison (tolerance 5e-5).",
@@ -315,7 +318,8 @@ CHECKS = {
               "within tolerance, an equal number of executed blocks (Block hook) under both schedulers, and that all six "
               "variants were observed."
               " Round 3: 3 x 5 grid scan split unevenly by max_batch 2 and 4, quick tier stratified over builder x scan x potential."
-              " Batch 8: builder tilt (a series along y; a scalar x with a series along y) and a 3 x 4 grid scan with endpoint (True, False) are scenario dimensions."),
+              " Batch 8: builder tilt (a series along y; a scalar x with a series along y) and a 3 x 4 grid scan with endpoint (True, False) are scenario dimensions."
+              " Batch 9: scenario flag ctf_series - the applied CTF carries a weighted, averaged defocus series centred on zero (with an averaged frozen-phonon potential: two averaged ensemble axes)."),
         technique="TLA+ scenario enumeration + interleaving model of block execution (TLC) + lazy/eager differential runs validated by a TLC trace spec",
         design_ref="DESIGN.md 5 C01",
         note=NOTE_COMMON + " The oracle is the eager run of the same code (a change breaking both modes identically is invisible here; C02/C06/C07 compare different code paths); dask's scheduler is trusted; tolerance 5e-5.",
@@ -359,7 +363,8 @@ CHECKS = {
               "for radii no pixel lies on (+- margin, both layouts, four grid parities); PatternTrace.tla decides the decoded "
               "positions, the requested parity, and blocked set = disc of the effective radius in integer arithmetic with all "
               "other pixels unchanged."
-              " Round 3: masking calls on a pattern object that was masked before with wider limits."),
+              " Round 3: masking calls on a pattern object that was masked before with wider limits."
+              " Batch 9: angle classes edge (within a pixel of the largest angle) and beyond (zero-padded by the library: centred map and parity only)."),
         technique="TLA+ index-map model of crop and shift (TLC) + one-hot decoding of real patterns + TLC trace validation",
         design_ref="DESIGN.md 5 C14",
         note=NOTE_COMMON + " Positions are converted to frequencies by the numpy.fft.fftshift layout convention, which is part of the trusted base.",
@@ -435,7 +440,8 @@ CHECKS = {
               "sent through Waves.multislice and windowed (interpolation). PrismTrace.tla decides waves, detector values, shapes and "
               "lazy == eager."
               " Scenario dimensions added in round 3: CTF aperture given / unset, and S-matrix objects that were inspected (len, shape, wave_vectors) and then edited through their setters (cutoff, potential) before the reduction."
-              " Batch 8: the S-matrix built eagerly as one array object and then reduced; a lazy default-aperture reduction computed only after another S-matrix (same cutoff, other energy and cell) was reduced in the same process."),
+              " Batch 8: the S-matrix built eagerly as one array object and then reduced; a lazy default-aperture reduction computed only after another S-matrix (same cutoff, other energy and cell) was reduced in the same process."
+              " Batch 9: a CTF carrying a series of defocus values - member k of the reduction equals the reduction with the scalar CTF k."),
         technique="TLA+ model of the window extraction checked by TLC against the property-level spec; TLA+ scenario enumeration and acceptance predicate over PRISM-vs-multislice differential runs; TLC trace validation",
         design_ref="DESIGN.md 5 C06",
         note=NOTE_COMMON + " With interpolation only the annular detector is compared (the statement promises the window probes); without interpolation an annular detector, a FlexibleAnnularDetector and a PixelatedDetector(max_angle='cutoff') with default limits are compared with Probe.scan (bin count / pattern size included). rint ties at half pixels are avoided by the chosen positions. Tolerance 5e-5.",
